@@ -223,7 +223,7 @@ def run(tier, replay=None):
             continue
         frame = bytes.fromhex(v['hex'])
         cases = [('canonical', None, frame)]
-        if v['kind'].startswith('policy') or tier == 'thorough':
+        if (v['kind'].startswith('policy') or tier == 'thorough') and len(frame) <= 4096:
             n = len(frame)
             cuts = range(0, n) if n <= 40 else sorted({m + d for m in SCH.marks_of(v) for d in (-1, 0, 1) if 0 <= m + d < n})
             cases += [('eof', f'eof@{c}', frame[:c]) for c in cuts]
